@@ -70,3 +70,25 @@ package values
 //@ func (UFix64Value).ToInt
 //@   nofail
 //@   ensures[C16] result1 == nil && result0 == ediv(v, 100000000)
+
+// ---- UFix64 arithmetic on raw scaled integers (C15, C13)
+//@ func NewUFix64Value
+//@   inline
+//@ func NewUnmeteredUFix64Value
+//@   inline
+//@ schema values_ufix64_op(M=Plus, E=a + b, DZ=false, ERR=exact > pow2(64) - 1, K=OverflowError, R=exact, P=C15)
+//@ schema values_ufix64_op(M=Minus, E=a - b, DZ=false, ERR=exact < 0, K=UnderflowError, R=exact, P=C15)
+//@ schema values_ufix64_op(M=Mul, E=ediv(a * b, 100000000), DZ=false, ERR=exact > pow2(64) - 1, K=OverflowError, R=exact, P=C15)
+//@ schema values_ufix64_op(M=Div, E=ediv(a * 100000000, b), DZ=b == 0, ERR=exact > pow2(64) - 1, K=OverflowError, R=exact, P=C15)
+//@ schema values_ufix64_op(M=SaturatingPlus, E=a + b, DZ=false, ERR=false, K=OverflowError, R=min(exact, pow2(64) - 1), P=C13)
+//@ schema values_ufix64_op(M=SaturatingMinus, E=a - b, DZ=false, ERR=false, K=OverflowError, R=max(exact, 0), P=C13)
+//@ schema values_ufix64_op(M=SaturatingMul, E=ediv(a * b, 100000000), DZ=false, ERR=false, K=OverflowError, R=min(exact, pow2(64) - 1), P=C13)
+// a % b = a - trunc(a/b)*b; an error only when the quotient a/b is out of range
+//@ func (UFix64Value).Mod
+//@   fails other == 0 => DivisionByZeroError
+//@   env MemoryMeteringError
+//@   modifies ghost("metered")
+//@   let q = ediv(v * 100000000, other)
+//@   ensures[C15] iff(result1 != nil, q > pow2(64) - 1)
+//@   ensures[C15] result1 != nil ==> kind(result1) == OverflowError
+//@   ensures[C15] result1 == nil ==> result0 == v - ediv(q, 100000000) * other
